@@ -187,6 +187,9 @@ class Surrogates(Cached):
         >>> r(ts.original_data.std(axis=1))
         array([ 1., 1., 1., 1., 1., 1.])
         """
+        #  (normalise a copy: the array handed to the constructor belongs to
+        #  the caller)
+        self.original_data = self.original_data.copy()
         mean = self.original_data.mean(axis=1)
         std = self.original_data.std(axis=1)
 
